@@ -205,6 +205,15 @@ func checkC02(e *Env) {
 		}
 	}
 
+	// (c'') the fallback URL the reader hands out is the very byte string the file
+	// carries (what Write emitted), not a re-serialisation of its parsed form
+	if vf := e.fn("signedexchange.validateFallbackURL"); vf != nil {
+		e.requireResult("AGREE", vf, gate.Outcome{Kind: gate.ErrNil, Idx: 1}, 0, "conv(param:urlBytes)", "the URL bytes of the file, unchanged")
+	}
+	if rp := e.fn("signedexchange.ReadExchangePrologue"); rp != nil {
+		e.requireStore("AGREE", rp, "alloc:signedexchange.Exchange.RequestURI", "{call:signedexchange.validateFallbackURL(make([]byte,local:fallbackUrlLength))#0|conv(make([]byte,local:fallbackUrlLength))}", "the validated fallback URL bytes read from the file")
+	}
+
 	// (d) header maps
 	headerEntriesComplete(e, "AGREE")
 	// (f) the verifier's payload step refuses what MiEncodePayload produced on no ground other than the listed ones
@@ -229,9 +238,12 @@ func checkC02(e *Env) {
 		gate.CallInstr("M.digest", "(http.Header).Add", "param:e.ResponseHeaders", "call:(mice.Encoding).DigestHeaderName("+tEnc+")", "call:(mice.Encoding).Encode("+tEnc+",local:buf,param:e.Payload,param:recordSize)#0"),
 	)
 	e.requireStore("RESULT", mp, "param:e.Payload", "call:(*bytes.Buffer).Bytes(local:buf)", "the MI-encoded payload")
+	// one header entry per field, one record per element
+	iterationsIndependent(e, "ITER", e.fns("signedexchange.(*Exchange).Write", "signedexchange.ReadExchangePrologue", "signedexchange.(*Exchange).MiEncodePayload", "signedexchange.verifyPayload")...)
+	e.R.Floor("ITER", 6)
 	e.R.Floor("TABLE", 14)
 	e.R.Floor("GATE", 40)
-	e.R.Floor("AGREE", 6)
+	e.R.Floor("AGREE", 8)
 }
 
 // pseudoAgree: the pseudo-header keys are the same package variables in the
